@@ -441,6 +441,8 @@ class Table:
 
         if method != "bisect" or callable(arg):
             col = col[lo:hi]
+        elif arg is None:
+            arg = Missing #Missing == None and, unlike None, it can be ordered against the column values
 
         if callable(arg):
             return list(compress(count(lo),map(arg,col)))
